@@ -103,4 +103,36 @@ func runC46(c *eng.Ctx) {
 		fs := n.(*ast.ForStmt)
 		return fs.Cond != nil && eng.ExprString(fs.Cond) == "s.queueLen() > 0" && strings.Contains(nodeText(fs.Body), "s.sendOneBatch()")
 	}, 1)
+	// ---- R4 (added for seed C46-b) one send loop per Alertmanager URL at any time ----
+	// A loop is removed from the set only after it has stopped (its queue drained or dropped), synchronously: a loop that
+	// is still draining while the same URL is registered again would let newer alerts overtake queued ones.
+	{
+		A := "notifier:alertmanagerSet"
+		del := p.DeleteElem(A + ".sendLoops")
+		c.OnlyIn("R4", del, 1, A+".cleanSendLoops")
+		cl := c.Fn(A + ".cleanSendLoops")
+		stop := p.Call(S + ".stop")
+		cl.Has("R4", stop, 1)
+		cl.Dom("R4", stop, del)
+		cl.Hasnt("R4", eng.GoStarted(stop))
+		// nobody stops a send loop asynchronously
+		n := 0
+		for _, o := range p.FindAll(eng.Node("go ….stop()", func(g *eng.Graph, nd ast.Node) bool {
+			gs, ok := nd.(*ast.GoStmt)
+			return ok && g.Pkg.PkgPath == "github.com/prometheus/prometheus/notifier" && strings.HasSuffix(nodeText(gs.Call.Fun), ".stop")
+		})) {
+			n++
+			c.Fail("R4", o.In, "no send loop is stopped in a goroutine", p.Pos(o.Node.Pos()), nodeText(o.Node))
+		}
+		if n == 0 {
+			c.Pass("R4", "notifier", "no send loop is stopped in a goroutine", "")
+		}
+		// a loop for a URL is started only when none is registered
+		st := c.Fn(A + ".addSendLoops")
+		st.Only("R4", p.StoreElem(A+".sendLoops"), "registers a new loop only for a URL that has none", func(l eng.Loc) bool {
+			return nodeText(l.Node) == "s.sendLoops[us] = sendLoop"
+		})
+		conts := st.Branches("continue")
+		c.Check("R4", st.Where(), "a URL that already has a send loop is skipped", len(conts) == 1 && len(conts[0].Conds) == 1 && conts[0].Conds[0] == "exists=T", p.Pos(st.Body.Pos()), "")
+	}
 }
